@@ -80,8 +80,23 @@ func genModel(p *simkit.Plan, r *simkit.Rand, tier string) {
 		// Which activities park at syscall-level gates in this run.
 		c["fs_gates"] = int64(simkit.Pick(r, []int{0, 1, 2, 3, 3, 63, 31}))
 		c["internal_staging"] = int64(r.Intn(2))
+		if r.Chance(1, 5) {
+			c["no_renameat2"] = 1
+		}
 	}
 	var id int64 = 100
+	devSides := []string{}
+	if onDisk && p.Scenario != "disk-halt" && r.Chance(1, 4) {
+		// One or both roots on their own small device (real EXDEV between the
+		// staging area and the root unless staging is internal; can fill up).
+		c["dev_side"] = int64(simkit.Pick(r, []int{1, 2, 2, 3}))
+		c["dev_kb"] = int64(simkit.Pick(r, []int{48, 96, 256, 4096}))
+		for i, sd := range []string{"alpha", "beta"} {
+			if c["dev_side"]&(1<<i) != 0 {
+				devSides = append(devSides, sd)
+			}
+		}
+	}
 	// Initial content (applied before the session exists).
 	for i := r.Range(0, 8); i > 0; i-- {
 		genEdit(r, p, "init", &id, untracked)
@@ -102,6 +117,14 @@ func genModel(p *simkit.Plan, r *simkit.Rand, tier string) {
 	}
 	lifecycle := p.Scenario == "lifecycle" || p.Scenario == "disk-lifecycle"
 	for i := 0; i < n; i++ {
+		if len(devSides) > 0 && r.Chance(1, 6) {
+			// The device fills up (leaving 0..3 pages) or space is freed again.
+			if r.Chance(2, 3) {
+				p.Ops = append(p.Ops, simkit.Op{Actor: "user", Kind: "fill", N: []int64{int64(simkit.Pick(r, []int{0, 0, 1, 2, 3}))}, S: []string{simkit.Pick(r, devSides), ""}})
+			} else {
+				p.Ops = append(p.Ops, simkit.Op{Actor: "user", Kind: "unfill", S: []string{simkit.Pick(r, devSides), ""}})
+			}
+		}
 		switch r.Weighted([]int{50, 15, 20}) {
 		case 0:
 			genEdit(r, p, "user", &id, untracked)
@@ -188,7 +211,7 @@ func genModel(p *simkit.Plan, r *simkit.Rand, tier string) {
 		// Swap directories and files on planned paths for links to the canary.
 		c["fs_gates"] = int64(simkit.Pick(r, []int{3, 15, 31, 63, 2}))
 		for i := range p.Ops {
-			if (p.Ops[i].Actor == "user" || p.Ops[i].Actor == "init") && p.Ops[i].Kind != "put" && p.Ops[i].Kind != "sleep" && r.Chance(1, 2) {
+			if (p.Ops[i].Actor == "user" || p.Ops[i].Actor == "init") && p.Ops[i].Kind != "put" && p.Ops[i].Kind != "sleep" && p.Ops[i].Kind != "fill" && p.Ops[i].Kind != "unfill" && r.Chance(1, 2) {
 				p.Ops[i].Kind = "swaplink"
 			}
 		}
@@ -586,6 +609,10 @@ func (h *harness) settle() {
 		return mgr.Flush(c, h.sel, "", false)
 	}
 	s.StopFaults()
+	if h.disk != nil {
+		h.disk.unfill("alpha")
+		h.disk.unfill("beta")
+	}
 	h.mu.Lock()
 	h.settling = true
 	term, paused := h.terminatedSince > 0, h.pausedSince > 0
